@@ -27,13 +27,15 @@ SHAPES = [
     "head ${a}${b}", "x ${a} y ${b} z", "  lead", "trail  ", "in  ner", "para1\n\npara2", "line1\nline2", "l1\n \nl3", "tab\there",
     "${a}\n\n${b}", "a\n\n${a}", "\nx", "x\n", " ", "-", "a < b ${a} & c", "<b>${a}</b>", "instance('l1')/root/item[name = ${a}]/label z",
     "${a} instance('l1')/root/item[name = ${b}]/label", "x ]]> y", "&amp; ${a}",
+    # separators that are whitespace for Python's str.strip() but NOT XML whitespace: they are data
+    "${a}\u3000${b}", "${a}\u00a0${b}", "${a}\u2003${b} x", "x\u3000${a}\u3000", "${a}\u00a0", "\u3000${a}", "${a}\u2028${b}", "${a}\u0085${b}", "\u00a0",
 ]
 
 
 def plan(tier, seed):
     n = 1200 if tier == "quick" else 20000
     return {"shards": 16, "timeout": 900 if tier == "quick" else 3000, "n": n,
-            "floors": {"suite_conversions_judged": 500, "pairs_compared": n, "distinct": 60, "mixed_content_pairs": 200}}
+            "floors": {"suite_conversions_judged": 500, "pairs_compared": n, "distinct": 60, "mixed_content_pairs": 200, "typed_dict_pairs": n // 20}}
 
 
 def shape_form(rng, i):
@@ -58,9 +60,40 @@ def shape_form(rng, i):
     return f, shapes
 
 
+def typed_dict_pair(rng):
+    """A dict workbook as an API caller may build it: some cells are JSON numbers/booleans, not strings."""
+    # only the cells that accept non-string values today: choice names, extra choice columns, form_title
+    num = lambda: rng.choice([1, 2, 7, 10, 2.5, 0, -3, 1e3, True])
+    choices = [{"list_name": "l1", "name": rng.choice([1, 2, "a"]) if k == 0 else k + 10, "label": f"L{k}", "weight": num(), "code": rng.choice(["c", 5, 0.25])} for k in range(3)]
+    survey = [{"type": "select_one l1", "name": "q1", "label": "Pick"},
+              {"type": "integer", "name": "q2", "label": "N", "constraint": ". > 0", "constraint_message": "m"},
+              {"type": "text", "name": "q3", "label": "T ${q2}", "hint": "h"},
+              {"type": "select_one l1", "name": "q4", "label": "Again", "choice_filter": "weight > 1"}]
+    settings = [{"form_id": "f", "form_title": rng.choice(["T", 2024, 1.5])}]
+    return {"survey": survey, "choices": choices, "settings": settings}
+
+
+def compare_typed(ctx, rng, i):
+    import copy
+    wb = typed_dict_pair(rng)
+    a = drive.call_convert(copy.deepcopy(wb), pretty_print=False)
+    b = drive.call_convert(copy.deepcopy(wb), pretty_print=True)
+    if not (a.ok and b.ok):
+        ctx.ctr("rejected:typed-dict")
+        if a.ok != b.ok:
+            ctx.viol("outcome-differs", f"[typed-dict] compact: {a.brief()} / pretty: {b.brief()}", {"workbook": wb, "klass": "typed-dict"})
+        return
+    ctx.ctr("pairs_compared")
+    ctx.ctr("typed_dict_pairs")
+    ctx.case(sig=f"typed-dict|{i}")
+    for key, what in invariants.c15_same_document(a.xform, b.xform):
+        ctx.viol(key, f"[typed-dict] {what}", {"workbook": wb, "klass": "typed-dict"})
+
+
 def compare(ctx, form, klass, sig, fmt="dict", detail=None):
-    a = drive.convert_form(form, fmt=fmt, pretty=False)
-    b = drive.convert_form(form, fmt=fmt, pretty=True)
+    rk = {"raw": True} if fmt == "dict" else None  # raw: the dict renderer must not normalise NBSP & co. away
+    a = drive.convert_form(form, fmt=fmt, pretty=False, render_kw=rk)
+    b = drive.convert_form(form, fmt=fmt, pretty=True, render_kw=rk)
     if not (a.ok and b.ok):
         ctx.ctr(f"rejected:{klass}")
         if a.ok != b.ok:
@@ -82,6 +115,9 @@ def run_shard(ctx):
             continue
         rng = ctx.rng("case", i)
         k = i % 3
+        if i % 10 == 9:
+            compare_typed(ctx, rng, i)
+            continue
         if k == 0:
             form, shapes = shape_form(rng, i)
             fmt = "xlsx" if (i // 3) % 4 == 0 else "dict"
@@ -109,13 +145,18 @@ def run_shard(ctx):
 
 def replay(w):
     def chk(ctx, wit):
-        if wit.get("klass") == "fixture":
+        if wit.get("klass") == "typed-dict":
+            import copy
+            a = drive.call_convert(copy.deepcopy(wit["workbook"]), pretty_print=False)
+            b = drive.call_convert(copy.deepcopy(wit["workbook"]), pretty_print=True)
+        elif wit.get("klass") == "fixture":
             a = drive.call_convert(wit["fixture"], pretty_print=False)
             b = drive.call_convert(wit["fixture"], pretty_print=True)
         else:
             form = common.form_from_witness(wit)
-            a = drive.convert_form(form, fmt=wit.get("fmt", "dict"), pretty=False)
-            b = drive.convert_form(form, fmt=wit.get("fmt", "dict"), pretty=True)
+            rk = {"raw": True} if wit.get("fmt", "dict") == "dict" else None
+            a = drive.convert_form(form, fmt=wit.get("fmt", "dict"), pretty=False, render_kw=rk)
+            b = drive.convert_form(form, fmt=wit.get("fmt", "dict"), pretty=True, render_kw=rk)
         print("  compact:", a.brief(), "| pretty:", b.brief())
         if a.ok and b.ok:
             for key, what in invariants.c15_same_document(a.xform, b.xform):
